@@ -18,7 +18,8 @@ from vlib import wire
 
 PROPERTY = "C13"
 LEVEL = "fault_enumeration"
-RULE = ("a case = 1..3 connections, each with k tracked and j then-untracked resources, optional session instance, 0-2 item streams the "
+RULE = ("a case = 1..3 connections, each with k tracked and j then-untracked resources (plain, or falsy through __len__/__bool__; optionally "
+        "after d resources that were tracked and then garbage collected), optional session instance, 0-2 item streams the "
         "client never finishes (ITER_STREAM_LINGER 0 or default), a disconnect hook that may raise, and an ending "
         "from {orderly, abort(RST)/FIN at byte offset o of a valid request (all offsets enumerated in the thorough tier), bad magic, "
         "oversize declaration, undecodable payload + close, SecurityError raised by a method, server-side timeout, stay open}; endings "
@@ -53,6 +54,21 @@ class Resource(object):
             self.closed += 1
 
 
+class EmptyResource(Resource):
+    """a container-like resource that is currently empty (falsy through __len__): still a resource that was tracked"""
+    def __len__(self):
+        return 0
+
+
+class FalseResource(Resource):
+    """a resource whose truth value says 'not ready' (falsy through __bool__)"""
+    def __bool__(self):
+        return False
+
+
+SHAPES = {"plain": Resource, "empty": EmptyResource, "false": FalseResource}
+
+
 def _classes():
     import Pyro5.api as api
     from Pyro5.callcontext import current_context
@@ -60,12 +76,19 @@ def _classes():
 
     @api.expose
     class Res(object):
-        def track(self, token, n):
-            rs = [Resource("%s-%d" % (token, i)) for i in range(n)]
+        def track(self, token, n, shape="plain"):
+            rs = [SHAPES[shape]("%s-%d" % (token, i)) for i in range(n)]
             with LOCK:
                 REG.setdefault(token, []).extend(rs)
             for r in rs:
                 current_context.track_resource(r)
+            return n
+
+        def track_and_drop(self, token, n, shape="plain"):
+            # resources that are tracked and then simply forgotten by the application: they are garbage collected while the
+            # connection lives on (tracking is weak); whatever is tracked afterwards (possibly at the same addresses) still counts
+            for i in range(n):
+                current_context.track_resource(SHAPES[shape]("%s-dropped-%d" % (token, i)))
             return n
 
         def untrack(self, token, j):
@@ -112,7 +135,8 @@ def _classes():
 ENDINGS = ["orderly", "abort-offset", "fin-offset", "bad-magic", "oversize", "undecodable-then-close", "security", "error-then-abort", "stay-open"]
 
 conn_spec = st.fixed_dictionaries({
-    "track": st.integers(0, 3), "untrack": st.integers(0, 3), "session": st.booleans(), "ctor_res": st.booleans(), "streams": st.sampled_from([0, 0, 1, 2]),
+    "track": st.integers(0, 3), "untrack": st.integers(0, 3), "session": st.booleans(),
+    "shape": st.sampled_from(["plain", "plain", "empty", "false"]), "dropped": st.sampled_from([0, 0, 1, 2, 3]), "ctor_res": st.booleans(), "streams": st.sampled_from([0, 0, 1, 2]),
     "ending": st.sampled_from(ENDINGS + ["abort-offset", "fin-offset", "security"]),
     "offset": st.integers(0, 200), "ser": st.sampled_from(["marshal", "json", "serpent", "msgpack"]),
 })
@@ -199,8 +223,12 @@ def run_case(case, servertype=None, commtimeout=None, keep=False):
             def call(info, obj, method, *args):
                 info["seq"] += 1
                 return info["peer"].call(obj, method, args, {}, seq=info["seq"], ser=info["spec"]["ser"])
+            if c.get("dropped"):
+                r = call(info, "res", "track_and_drop", token, c["dropped"], c.get("shape", "plain"))
+                if not isinstance(r, dict) or r["flags"] & wire.F_EXCEPTION:
+                    viol("harness:track", "track_and_drop call failed: %r" % (r,))
             if c["track"]:
-                r = call(info, "res", "track", token, c["track"])
+                r = call(info, "res", "track", token, c["track"], c.get("shape", "plain"))
                 if not isinstance(r, dict) or r["flags"] & wire.F_EXCEPTION:
                     viol("harness:track", "track call failed: %r" % (r,))
             if c["untrack"]:
@@ -405,6 +433,10 @@ def _labels(case):
         l.append("ending:" + c["ending"])
         if c["track"] > c["untrack"]:
             l.append("has-tracked")
+            if c.get("shape", "plain") != "plain":
+                l.append("tracked-resource-is-falsy")
+            if c.get("dropped"):
+                l.append("tracked-after-dropped-resources")
         if c["session"]:
             l.append("has-session")
             if not c.get("ctor_res", True) and c["track"] <= c["untrack"]:
